@@ -198,6 +198,7 @@ type lexCtxKey struct {
 type lexCtx struct {
 	fn       *ssa.Function
 	params   map[*ssa.Parameter]bset
+	fparams  map[*ssa.Parameter]*ssa.Function // function-typed parameters bound to a known byte predicate
 	entry    *lexState
 	exit     *lexState // union over returns
 	in       map[*ssa.BasicBlock]*lexState
@@ -218,6 +219,7 @@ type lexFacts struct {
 	changed  bool
 	nlFlag   *types.Var // the lexer's "had a newline before" flag (copied into Token.AfterNewline)
 	skipper  *ssa.Function
+	skFns    []*ssa.Function
 	base     *ssa.Function
 	problems []string
 }
@@ -303,18 +305,25 @@ func (c *Ctx) lexFacts() *lexFacts {
 	return lf
 }
 
-func (lf *lexFacts) context(f *ssa.Function, params map[*ssa.Parameter]bset) *lexCtx {
+func (lf *lexFacts) context(f *ssa.Function, params map[*ssa.Parameter]bset, fps ...map[*ssa.Parameter]*ssa.Function) *lexCtx {
 	var parts []string
+	var fparams map[*ssa.Parameter]*ssa.Function
+	if len(fps) > 0 {
+		fparams = fps[0]
+	}
 	for _, p := range f.Params {
 		if s, ok := params[p]; ok {
 			parts = append(parts, p.Name()+"="+s.String())
+		}
+		if g, ok := fparams[p]; ok {
+			parts = append(parts, p.Name()+"="+g.Name())
 		}
 	}
 	key := lexCtxKey{f, strings.Join(parts, ",")}
 	if cx, ok := lf.ctxs[key]; ok {
 		return cx
 	}
-	cx := &lexCtx{fn: f, params: params, entry: &lexState{vals: map[ssa.Value]bset{}, alias: map[ssa.Value]int{}}}
+	cx := &lexCtx{fn: f, params: params, fparams: fparams, entry: &lexState{vals: map[ssa.Value]bset{}, alias: map[ssa.Value]int{}}}
 	lf.ctxs[key] = cx
 	lf.order = append(lf.order, key)
 	lf.changed = true
@@ -336,6 +345,9 @@ func (cx *lexCtx) label() string {
 	for _, p := range cx.fn.Params {
 		if s, ok := cx.params[p]; ok {
 			parts = append(parts, p.Name()+"="+s.String())
+		}
+		if g, ok := cx.fparams[p]; ok {
+			parts = append(parts, p.Name()+"="+g.Name())
 		}
 	}
 	if len(parts) == 0 {
@@ -472,7 +484,13 @@ func (lf *lexFacts) refine(s *lexState, cx *lexCtx, cond ssa.Value, pol bool) bo
 			}
 		}
 	case *ssa.Call:
-		if cal := x.Call.StaticCallee(); cal != nil {
+		cal := x.Call.StaticCallee()
+		if cal == nil {
+			if par, ok := x.Call.Value.(*ssa.Parameter); ok {
+				cal = cx.fparams[par]
+			}
+		}
+		if cal != nil {
 			if ps, ok := lf.preds[cal]; ok && len(x.Call.Args) == 1 {
 				al := ps
 				if !pol {
@@ -632,14 +650,30 @@ func (lf *lexFacts) transfer(cx *lexCtx, s *lexState, in ssa.Instruction) {
 					delete(params, p)
 				}
 			}
-			callee := lf.context(cal, params)
-			entry := &lexState{cur: s.cur, peek: s.peek, noAdv: s.noAdv, live: true, vals: map[ssa.Value]bset{}, alias: map[ssa.Value]int{}}
+			// a function-typed parameter handed a known byte predicate: one context per predicate
+			var fparams map[*ssa.Parameter]*ssa.Function
+			for i, p := range cal.Params {
+				if i == 0 || i >= len(x.Call.Args) {
+					continue
+				}
+				if g, ok := x.Call.Args[i].(*ssa.Function); ok {
+					if _, isPred := lf.preds[g]; isPred {
+						if fparams == nil {
+							fparams = map[*ssa.Parameter]*ssa.Function{}
+						}
+						fparams[p] = g
+					}
+				}
+			}
+			callee := lf.context(cal, params, fparams)
+			entry := &lexState{cur: s.cur, peek: s.peek, noAdv: s.noAdv, flagU: s.flagU, flagMust: s.flagMust, live: true, vals: map[ssa.Value]bset{}, alias: map[ssa.Value]int{}}
 			if callee.entry.join(entry) {
 				lf.changed = true
 			}
 			if callee.exit != nil && callee.exit.live {
 				s.cur, s.peek = callee.exit.cur, callee.exit.peek
 				s.noAdv = s.noAdv && callee.exit.noAdv
+				s.flagU, s.flagMust = callee.exit.flagU, callee.exit.flagMust
 			} else if lf.mayAdvance(cal) {
 				// not analysed yet: nothing flows past this call in this round
 				s.live = false
